@@ -714,6 +714,8 @@ class NestedExtensionArray(ExtensionArray):
         # Validate struct-array with list fields
         elif validate:
             self._validate(values)
+        if validate:
+            values = self._drop_hidden_elements(values)
 
         self._chunked_array = values
         self._dtype = NestedDtype(values.type)
@@ -803,9 +805,30 @@ class NestedExtensionArray(ExtensionArray):
             return ArrowExtensionArray(self._list_array)
         return ArrowExtensionArray(self._chunked_array)
 
+    @staticmethod
+    def _drop_hidden_elements(array: pa.ChunkedArray) -> pa.ChunkedArray:
+        """A missing row holds nothing.
+
+        Arrow allows a null struct over child lists that still span elements of the value buffers
+        (`pa.StructArray.from_arrays(..., mask=...)`, a list column offering values for a missing
+        row). Such chunks are re-encoded, so that list lengths, offsets and flat views, which go by
+        the offsets, agree with what the rows show.
+        """
+        chunks = []
+        for chunk in array.iterchunks():
+            if chunk.null_count > 0 and chunk.type.num_fields > 0:
+                offsets = chunk.field(0).offsets
+                lengths = pa.compute.subtract(offsets.slice(1), offsets.slice(0, len(chunk)))
+                hidden = pa.compute.sum(pa.compute.if_else(chunk.is_null(), lengths, 0)).as_py()
+                if hidden:
+                    chunk = pa.compute.if_else(chunk.is_valid(), chunk, pa.scalar(None, type=chunk.type))
+            chunks.append(chunk)
+        return pa.chunked_array(chunks, type=array.type)
+
     def _replace_chunked_array(self, pa_array: pa.ChunkedArray, *, validate: bool) -> None:
         if validate:
             self._validate(pa_array)
+            pa_array = self._drop_hidden_elements(pa_array)
         self._chunked_array = pa_array
         self._dtype = NestedDtype(pa_array.type)
         if _VERIF:
